@@ -178,7 +178,7 @@ def item_toks(it):
         out = ([Tok("export")] if it["export"] else []) + [Tok("function"), Tok(it["n"]), Tok("(")]
         for i, a in enumerate(it["args"]):
             if i: out.append(Tok(","))
-            out += _type_toks(a["t"], a.get("dims", [])) + [Tok(a["n"], a, "arg")]
+            out += _type_toks(a["t"], a.get("dims", [])) + ([Tok(a["n"], a, "arg")] if a["n"] is not None else [])
         out += [Tok(")"), Tok("->")] + _type_toks(it["ret"], it.get("retdims", []))
         return out + stmt_toks(it["body"])
     raise ValueError(k)
@@ -527,6 +527,6 @@ def coq_module(m):
         elif it["k"] == "func":
             funcs.append('{| f_name := "%s"%%string; f_export := %s; f_args := [%s]; f_ret := %s; f_body := [%s] |}' % (
                 it["n"], "true" if it["export"] else "false",
-                "; ".join('(%s, "%s"%%string)' % (coq_ty(a["t"], a.get("dims", [])), a["n"]) for a in it["args"]),
+                "; ".join('(%s, "%s"%%string)' % (coq_ty(a["t"], a.get("dims", [])), a["n"]) for a in it["args"] if a["n"] is not None),  # a parameter written without a name declares no variable
                 coq_ty(it["ret"], it.get("retdims", [])), "; ".join(coq_stmt(x) for x in it["body"]["b"])))
     return "{| m_structs := [%s]; m_globals := [%s]; m_funcs := [%s] |}" % ("; ".join(structs), "; ".join(globs), "; ".join(funcs))
